@@ -35,3 +35,8 @@ CFG["manifest"] = dict(
           "the code differentially, not by translation."),
     technique="Coq proof (induction, lexer automaton) + differential correspondence incl. real shells",
 )
+
+import tables  # constant tables / literals of the current source proved equal to the model's on every run (lib/tables.py)
+CFG["secondary"] = CFG.get("secondary", []) + [tables.C16_TABLES]
+import go2coq  # noqa: E402  (second tie: the model regenerated from the source on every run)
+CFG["secondary"] = CFG.get("secondary", []) + [go2coq.C16_SRC]
